@@ -239,7 +239,10 @@ class HashSeedEngine(Engine):
                 core = [[start, start + size]]
                 candidate = {"core": core, "loc": rng.choice([core, [[start - 30, length], [0, 26]]]),
                              "product": rng.choice(products), "cutoff": 5}
-                protos.append(candidate)
+                # the same rule about exact duplicates applies here
+                if not any(p["loc"] == candidate["loc"] and p["core"] == core and p["product"] == candidate["product"]
+                           for p in protos):
+                    protos.append(candidate)
             rng.shuffle(protos)
         if rng.random() < 0.3:
             # no defining genes at all (so no chemical hybrids): chains of overlapping cores that share starts
